@@ -1182,4 +1182,267 @@ theorem deIter_rev : ∀ (n : Nat) (l : List Nat), l.length ≤ n →
         List.reverse_append, List.reverse_cons, List.reverse_nil, List.nil_append]
       rw [this]
 
+/-! ### (C) `BitPage::iter_after` / `BitSet::iter_after` -/
+
+theorem mem_elemMembers {base e x : Nat} (h : x ∈ elemMembers base e) : base ≤ x ∧ x < base + 64 := by
+  rw [elemMembers_eq] at h
+  simp only [List.mem_map, List.mem_filter, List.mem_range] at h
+  obtain ⟨i, ⟨hi, _⟩, rfl⟩ := h
+  omega
+
+private theorem flatMap_congr' {α β : Type} {l : List α} {f g : α → List β}
+    (h : ∀ a ∈ l, f a = g a) : l.flatMap f = l.flatMap g := by
+  induction l with
+  | nil => rfl
+  | cons a l ih =>
+    rw [List.flatMap_cons, List.flatMap_cons, h a List.mem_cons_self,
+      ih (fun x hx => h x (List.mem_cons_of_mem _ hx))]
+
+/-- `BitPage::iter_after(value)` yields the members of the page above `value & PAGE_MASK` -/
+theorem iterAfterL_eq {p : CPage} (hp : CPageOk p) (v : Nat) :
+    p.iterAfterL v = (pageMembers p.abs.bits).filter (fun x => decide (v % 512 < x)) := by
+  have hstv : elementIndex v = v % 512 / 64 := rfl
+  generalize hstd : elementIndex v = st at hstv
+  have hst : st < 8 := by omega
+  have hL : p.iterAfterL v =
+      (((p.elems.drop st).zipIdx 0).filter (fun ei => ei.1 != 0)).flatMap
+        (fun ei => (elemIterFrom ei.1 ((fun i => if st = i then v % 64 + 1 else 0) (ei.2 + st))).map
+          (fun idx => (ei.2 + st) * 64 + idx)) := by
+    unfold CPage.iterAfterL
+    simp only [hstd, ELEM_BITS]
+    congr 1
+    funext ei
+    by_cases h : st = ei.2 + st
+    · simp only [if_pos h]
+    · simp only [if_neg h]
+  rw [hL, elemScan (fun i => if st = i then v % 64 + 1 else 0) st (p.elems.drop st) 0,
+    pageMembers_blocks hp]
+  have h8 : (8 : Nat) = st + (8 - st) := by omega
+  have hlen : (p.elems.drop st).length = 8 - st := by rw [List.length_drop, hp.1]
+  rw [hlen]
+  conv => rhs; rw [h8, List.range_add, List.flatMap_append, List.filter_append]
+  have hfirst : ((List.range st).flatMap (fun i => elemMembers (i * 64) (p.elems.getD i 0))).filter
+      (fun x => decide (v % 512 < x)) = [] := by
+    apply List.filter_eq_nil_iff.2
+    intro x hx
+    simp only [List.mem_flatMap, List.mem_range] at hx
+    obtain ⟨i, hi, hx⟩ := hx
+    have := mem_elemMembers hx
+    simp only [decide_eq_true_eq]
+    omega
+  rw [hfirst, List.nil_append, List.flatMap_map, List.filter_flatMap]
+  apply flatMap_congr'
+  intro j hj
+  have hget : (p.elems.drop st).getD j 0 = p.elems.getD (st + j) 0 := by
+    simp only [List.getD_eq_getElem?_getD, List.getElem?_drop]
+  rw [hget]
+  have hidx : 0 + j + st = st + j := by omega
+  rw [hidx]
+  apply List.filter_congr
+  intro x hx
+  have := mem_elemMembers hx
+  by_cases hj0 : j = 0
+  · subst hj0
+    simp only [Nat.add_zero, if_true] at *
+    apply decide_eq_decide.2
+    omega
+  · have hne : ¬ st = st + j := by omega
+    simp only [if_neg hne]
+    apply decide_eq_decide.2
+    omega
+
+private theorem ic_recomputeLength_eq_popCount (es : List Nat) (hl : es.length = 8)
+    (h : ∀ e ∈ es, e < 2 ^ 64) : recomputeLength es = popCount (pack es) := by
+  unfold popCount pageMembers
+  rw [List.length_flatMap]
+  have : (fun a => (elemMembers (a * 64) (pack es / 2 ^ (a * 64) % 2 ^ 64)).length) =
+      fun a => countOnes (es.getD a 0) := by
+    funext a
+    rw [ic_pack_elem es h, elemMembers_eq, List.length_map]; rfl
+  rw [this]
+  match es, hl with
+  | [a, b, c, d, e, f, g, i], _ =>
+    simp [recomputeLength, List.range, List.range.loop]
+    omega
+
+theorem pageMembers_nil_of_len0 {p : CPage} (hp : CPageOk p) (h : p.len = 0) :
+    pageMembers p.abs.bits = [] := by
+  have h1 : popCount (pack p.elems) = 0 := by
+    rw [← ic_recomputeLength_eq_popCount _ hp.1 hp.2.1, ← hp.2.2, h]
+  unfold popCount at h1
+  exact List.eq_nil_of_length_eq_zero h1
+
+/-- specification of the binary search on a map strictly sorted by major -/
+theorem searchMap_spec : ∀ (pm : PMap), (pm.map (·.1)).Pairwise (· < ·) → ∀ (m : Nat),
+    (∀ e ∈ pm.take (searchMap pm m).2, e.1 < m) ∧
+      ((searchMap pm m).1 = true → ∃ e, pm[(searchMap pm m).2]? = some e ∧ e.1 = m) ∧
+      (∀ e ∈ pm.drop (if (searchMap pm m).1 then (searchMap pm m).2 + 1 else (searchMap pm m).2),
+        m < e.1) := by
+  intro pm
+  induction pm with
+  | nil => intro _ m; simp [searchMap]
+  | cons a rest ih =>
+    intro hs m
+    obtain ⟨k, idx⟩ := a
+    simp only [List.map_cons, List.pairwise_cons, List.mem_map] at hs
+    obtain ⟨h1, h2⟩ := hs
+    have hgt : ∀ e ∈ rest, k < e.1 := fun e he => h1 e.1 ⟨e, he, rfl⟩
+    unfold searchMap
+    by_cases hk : k = m
+    · subst hk
+      simp only [if_true, List.take_zero, List.not_mem_nil, false_imp_iff, implies_true, true_and,
+        List.getElem?_cons_zero, Nat.zero_add, List.drop_succ_cons, List.drop_zero]
+      exact ⟨fun _ => ⟨(k, idx), rfl, rfl⟩, hgt⟩
+    · by_cases hlt : m < k
+      · simp only [if_neg hk, if_pos hlt, List.take_zero, List.not_mem_nil, false_imp_iff,
+          implies_true, true_and, Bool.false_eq_true, if_false, List.drop_zero, List.mem_cons]
+        rintro e (rfl | he)
+        · exact hlt
+        · have := hgt e he; omega
+      · obtain ⟨i1, i2, i3⟩ := ih h2 m
+        simp only [if_neg hk, if_neg hlt, List.take_succ_cons, List.mem_cons, List.getElem?_cons_succ]
+        refine ⟨?_, i2, ?_⟩
+        · rintro e (rfl | he)
+          · simp only; omega
+          · exact i1 e he
+        · intro e he
+          apply i3 e
+          split at he <;> rename_i hb <;> simp only [hb, if_true, if_false, Bool.false_eq_true] <;>
+            simpa using he
+
+theorem viewMembersNE_append (A B : List (Nat × CPage)) :
+    viewMembersNE (A ++ B) = viewMembersNE A ++ viewMembersNE B := by
+  unfold viewMembersNE
+  rw [List.map_append, List.flatMap_append]
+
+theorem mem_viewMembersNE {V : List (Nat × CPage)} {x : Nat} (h : x ∈ viewMembersNE V) :
+    ∃ kp ∈ V, majorStart kp.1 ≤ x ∧ x < majorStart kp.1 + 512 := by
+  unfold viewMembersNE at h
+  simp only [List.mem_flatMap, List.mem_map] at h
+  obtain ⟨_, ⟨kp, hkp, rfl⟩, hx⟩ := h
+  by_cases hl : kp.2.len = 0
+  · simp [CPage.abs, hl] at hx
+  · simp only [CPage.abs, hl, if_false, List.mem_map] at hx
+    obtain ⟨y, hy, rfl⟩ := hx
+    have := (mem_pageMembers.1 hy).1
+    exact ⟨kp, hkp, by omega, by omega⟩
+
+/-- (C) `BitSet::iter_after(value)` yields the abstract members above `value` -/
+theorem iterAfter_eq {s : CBitSet} (hs : CInv s) (v : Nat) :
+    s.iterAfter v = s.abs.members.filter (fun x => decide (v < x)) := by
+  have hV := view_all_ok hs
+  obtain ⟨sp1, sp2, sp3⟩ := searchMap_spec s.pageMap hs.sorted (majorOf v)
+  generalize hr : searchMap s.pageMap (majorOf v) = r at sp1 sp2 sp3
+  obtain ⟨found, i⟩ := r
+  simp only at sp1 sp2 sp3
+  -- everything through the view
+  have hdrop : ∀ n, ((s.pageMap.drop n).filterMap
+      (fun info => (s.pages[info.2]?).map (fun page => (info.1, page)))) =
+      (cview s.pageMap s.pages).drop n := by
+    intro n
+    unfold cview
+    rw [← List.map_drop]
+    apply filterMap_eq_map_of
+    intro e he
+    have hlt := hs.idxLt e (List.mem_of_mem_drop he)
+    simp [List.getElem?_eq_getElem hlt, List.getD_eq_getElem?_getD]
+  have hpage : ((s.pageMap[i]?).bind (fun info => (s.pages[info.2]?).map (fun p => (p, info.1)))) =
+      ((cview s.pageMap s.pages)[i]?).map (fun kp => (kp.2, kp.1)) := by
+    rw [view_getElem?]
+    cases hpm : s.pageMap[i]? with
+    | none => rfl
+    | some e =>
+      have hlt := hs.idxLt e (List.mem_of_getElem? hpm)
+      simp [List.getElem?_eq_getElem hlt, List.getD_eq_getElem?_getD]
+  have hfollow : ∀ n, (((s.pageMap.drop n).filterMap
+        (fun info => (s.pages[info.2]?).map (fun page => (info.1, page)))).filter
+        (fun mp => !mp.2.isEmpty)).flatMap
+      (fun mp => mp.2.iterL.map (fun v => majorStart mp.1 + v)) =
+      viewMembersNE ((cview s.pageMap s.pages).drop n) := by
+    intro n
+    rw [hdrop n, ← viewIter_eq _ (fun kp hkp => hV kp (List.mem_of_mem_drop hkp))]
+    rfl
+  unfold CBitSet.iterAfter
+  simp only [hr, hpage, hfollow]
+  -- split the abstract members at the search position
+  rw [abs_members]
+  generalize hVd : cview s.pageMap s.pages = V at *
+  have hkeys : ∀ n, ∀ kp ∈ V.drop n, ∃ e ∈ s.pageMap.drop n, e.1 = kp.1 := by
+    intro n kp hkp
+    rw [← hVd] at hkp
+    unfold cview at hkp
+    rw [← List.map_drop, List.mem_map] at hkp
+    obtain ⟨e, he, rfl⟩ := hkp
+    exact ⟨e, he, rfl⟩
+  have hkeysT : ∀ kp ∈ V.take i, ∃ e ∈ s.pageMap.take i, e.1 = kp.1 := by
+    intro kp hkp
+    rw [← hVd] at hkp
+    unfold cview at hkp
+    rw [← List.map_take, List.mem_map] at hkp
+    obtain ⟨e, he, rfl⟩ := hkp
+    exact ⟨e, he, rfl⟩
+  -- members before the search position are `≤ value`
+  have hbefore : (viewMembersNE (V.take i)).filter (fun x => decide (v < x)) = [] := by
+    apply List.filter_eq_nil_iff.2
+    intro x hx
+    obtain ⟨kp, hkp, h1, h2⟩ := mem_viewMembersNE hx
+    obtain ⟨e, he, hek⟩ := hkeysT kp hkp
+    have := sp1 e he
+    simp only [decide_eq_true_eq]
+    unfold majorStart majorOf at *
+    omega
+  -- members of the follow-on pages are `> value`
+  have hafter : (viewMembersNE (V.drop (if found then i + 1 else i))).filter (fun x => decide (v < x)) =
+      viewMembersNE (V.drop (if found then i + 1 else i)) := by
+    apply List.filter_eq_self.2
+    intro x hx
+    obtain ⟨kp, hkp, h1, h2⟩ := mem_viewMembersNE hx
+    obtain ⟨e, he, hek⟩ := hkeys _ kp hkp
+    have := sp3 e he
+    simp only [decide_eq_true_eq]
+    unfold majorStart majorOf at *
+    omega
+  conv => rhs; rw [← List.take_append_drop i V, viewMembersNE_append, List.filter_append, hbefore,
+    List.nil_append]
+  cases found with
+  | false =>
+    simp only [Bool.false_eq_true, if_false] at hafter ⊢
+    rw [hafter]
+    cases V[i]? <;> rfl
+  | true =>
+    simp only [if_true] at hafter ⊢
+    obtain ⟨e, he, hem⟩ := sp2 rfl
+    have hvi : V[i]? = some (e.1, s.pages.getD e.2 CPage.zero) := by
+      rw [← hVd, view_getElem?, he]; rfl
+    obtain ⟨hi, hvi'⟩ := List.getElem?_eq_some_iff.1 hvi
+    have hsplit : V.drop i = (e.1, s.pages.getD e.2 CPage.zero) :: V.drop (i + 1) := by
+      rw [List.drop_eq_getElem_cons hi, hvi']
+    have hcons : viewMembersNE ((e.1, s.pages.getD e.2 CPage.zero) :: V.drop (i + 1)) =
+        viewMembersNE [(e.1, s.pages.getD e.2 CPage.zero)] ++ viewMembersNE (V.drop (i + 1)) :=
+      viewMembersNE_append [_] _
+    rw [hsplit, hcons, List.filter_append, hafter, hvi]
+    congr 1
+    have hok : CPageOk (s.pages.getD e.2 CPage.zero) :=
+      hV _ (List.mem_of_getElem? hvi)
+    generalize s.pages.getD e.2 CPage.zero = pg at hok
+    simp only [Option.map_some, Option.filter, if_true, Option.toList, List.flatMap_cons,
+      List.flatMap_nil, List.append_nil, viewMembersNE, List.map_cons, List.map_nil, CPage.abs]
+    rw [iterAfterL_eq hok]
+    by_cases hl : pg.len = 0
+    · rw [pageMembers_nil_of_len0 hok hl]
+      simp [hl]
+    · simp only [hl, if_false, List.filter_map]
+      rw [show pg.abs.bits = pack pg.elems from rfl]
+      have : ∀ x, (decide (v % 512 < x)) = ((fun x => decide (v < x)) ∘ fun x => x + majorStart e.1) x := by
+        intro x
+        simp only [Function.comp]
+        apply decide_eq_decide.2
+        rw [hem]
+        unfold majorStart majorOf
+        omega
+      rw [List.filter_congr (fun x _ => this x)]
+      apply List.map_congr_left
+      intro x _
+      omega
+
 end FontVerif.IntSet
